@@ -46,6 +46,14 @@ def plan(tier, seed):
     specs.append({'kind': 'stream', 'fmt': 'p8', 'exists': True, 'readonly': True})
     specs.append({'kind': 'stream', 'fmt': 'png', 'exists': True, 'readonly': True})
     specs.append({'kind': 'internal'})
+    # destination present as a zero-length file (a reserved name, an earlier failed run); debug verbosity while the write fails
+    for fmt in ('p8', 'png'):
+        specs.append({'kind': 'stream', 'fmt': fmt, 'exists': True, 'empty': True})
+        for exists in (True, False):
+            specs.append({'kind': 'stream', 'fmt': fmt, 'exists': exists, 'verbosity': 'debug'})
+    specs.append({'kind': 'internal', 'verbosity': 'debug'})
+    specs.append({'kind': 'cli', 'entry': 'luamin_fmt', 'verbosity': 'debug'})
+    specs.append({'kind': 'cli', 'entry': 'build', 'verbosity': 'debug'})
     specs.append({'kind': 'png_rows', 'exists': True})
     specs.append({'kind': 'png_rows', 'exists': False})
     specs.append({'kind': 'cli', 'entry': 'luafmt'})
@@ -60,9 +68,10 @@ def plan(tier, seed):
 class Dest:
     """A destination path with its before/after snapshot oracle."""
 
-    def __init__(self, ctx, rng, fmt, exists, root, readonly=False):
+    def __init__(self, ctx, rng, fmt, exists, root, readonly=False, empty=False):
         self.ctx = ctx
         self.readonly = readonly
+        self.empty = empty
         self.dir = os.path.join(root, 'dest')
         os.makedirs(self.dir, exist_ok=True)
         self.path = os.path.join(self.dir, 'cart.p8' if fmt == 'p8' else 'cart.p8.png')
@@ -78,7 +87,7 @@ class Dest:
                 rows = [bytearray(carts.random_bytes(rng, rc.CART_W * 4)) for _ in range(rc.CART_H)]
                 data = rc.write_p8png(self.regions, rc.raw_code_area(self.code), 8, base_rows=rows)
             with open(self.path, 'wb') as fh:
-                fh.write(data)
+                fh.write(b'' if empty else data)
         if exists and readonly:
             os.chmod(self.path, 0o444)      # a destination the user marked read-only is still "the file already there"
         with open(os.path.join(self.dir, 'bystander.txt'), 'wb') as fh:
@@ -175,9 +184,11 @@ def attempt(ctx, dest, call, case, injector, fired=None):
 
 def run_stream(ctx, rng, spec, root):
     from pico8.game import file as p8file
-    dest = Dest(ctx, rng, spec['fmt'], spec['exists'], root, readonly=spec.get('readonly', False))
+    dest = Dest(ctx, rng, spec['fmt'], spec['exists'], root, readonly=spec.get('readonly', False), empty=spec.get('empty', False))
     if spec.get('readonly'):
         ctx.feature('readonly_destination')
+    if spec.get('empty'):
+        ctx.feature('zero_length_destination')
     cls = fmt_class(spec['fmt'])
     g = new_game(rng)
     # fault-free count
@@ -190,7 +201,8 @@ def run_stream(ctx, rng, spec, root):
     for k in range(1, total + 2):
         with faults.StreamFaultPatch(cls, k) as pt:
             attempt(ctx, dest, lambda: p8file.to_file(g, dest.path),
-                    {'injector': 'stream', 'k': k, 'fmt': spec['fmt'], 'exists': spec['exists']}, 'stream',
+                    {'injector': 'stream', 'k': k, 'fmt': spec['fmt'], 'exists': spec['exists'], 'empty': spec.get('empty', False),
+                     'verbosity': VERBOSITY[0]}, 'stream',
                     fired=lambda: pt.stream is not None and pt.stream.failed)
         ctx.feature('stream_index_%s' % spec['fmt'])
     ctx.feature('stream_enumeration_complete:%s' % spec['fmt'])
@@ -242,21 +254,22 @@ def run_png_rows(ctx, rng, spec, root):
 def cli_call(entry, dest, root):
     from pico8 import tool
     if entry == 'luafmt':
-        return lambda: tool.main(['-q', 'luafmt', '--overwrite', dest.path])
+        return lambda: tool.main(QUIET + ['luafmt', '--overwrite', dest.path])
     src = os.path.join(root, 'gfxsrc.p8')
     if not os.path.exists(src):
         import random
         regions, _ = carts.random_regions(random.Random(5), 'uniform')
         with open(src, 'wb') as fh:
             fh.write(rc.write_p8(regions, b'z=1\n', version=8))
-    return lambda: tool.main(['-q', 'build', dest.path, '--gfx', src, '--lua', dest.path])
+    return lambda: tool.main(QUIET + ['build', dest.path, '--gfx', src, '--lua', dest.path])
 
 
 class FmtDest(Dest):
     """Destination = the *_fmt file a CLI tool writes next to its input."""
 
-    def __init__(self, ctx, rng, fmt, exists, root):
+    def __init__(self, ctx, rng, fmt, exists, root, empty=False):
         Dest.__init__(self, ctx, rng, fmt, exists, root)
+        self.empty = empty
         ext = '.p8' if fmt == 'p8' else '.p8.png'
         inp = os.path.join(self.dir, 'cart_in' + ext)
         out = os.path.join(self.dir, 'cart_in_fmt' + ext)
@@ -270,6 +283,8 @@ class FmtDest(Dest):
                 fh.write(data)
         if exists:
             shutil.copy(inp, out)
+            if empty:
+                open(out, 'wb').close()
         self.path = out
         self.inp = inp
         self.snap = self.snapshot()
@@ -280,21 +295,33 @@ def run_cli(ctx, rng, spec, root):
         from pico8 import tool
         tool_name = spec['entry'].split('_')[0]
         for fmt in ('p8', 'png'):
-            for exists in (True, False):
-                dest = FmtDest(ctx, rng, fmt, exists, root)
+            for exists, empty in ((True, False), (False, False), (True, True)):
+                dest = FmtDest(ctx, rng, fmt, exists, root, empty=empty)
                 cls = fmt_class(fmt)
-                call = lambda: tool.main(['-q', tool_name, dest.inp])
+                call = lambda: tool.main(QUIET + [tool_name, dest.inp])
+                if empty and fmt == 'png':
+                    # a zero-length .p8.png destination cannot serve as the label source: the write fails by itself, which is one
+                    # more failure to judge (the empty file has to stay as it is)
+                    attempt(ctx, dest, call, {'injector': 'unreadable_existing_destination', 'entry': spec['entry'], 'fmt': fmt,
+                                              'exists': True, 'empty': True}, 'unreadable_existing_destination', fired=lambda: True)
+                    ctx.feature('zero_length_fmt_destination')
+                    shutil.rmtree(dest.dir, ignore_errors=True)
+                    continue
                 with faults.StreamFaultPatch(cls, -1) as pt:
                     call()
                     total = pt.stream.writes
                 if not exists:
                     os.remove(dest.path)
+                if empty:
+                    open(dest.path, 'wb').close()
+                    ctx.feature('zero_length_fmt_destination')
                 dest.snap = dest.snapshot()
                 for k in sorted(set(list(range(1, 8)) + [total // 2, total - 1, total, total + 1])):
                     if k < 1:
                         continue
                     with faults.StreamFaultPatch(cls, k) as pt:
-                        attempt(ctx, dest, call, {'injector': 'stream', 'entry': spec['entry'], 'k': k, 'fmt': fmt, 'exists': exists},
+                        attempt(ctx, dest, call, {'injector': 'stream', 'entry': spec['entry'], 'k': k, 'fmt': fmt, 'exists': exists, 'empty': empty,
+                                                  'verbosity': VERBOSITY[0]},
                                 'stream', fired=lambda: pt.stream is not None and pt.stream.failed)
                     ctx.feature('cli_%s_stream_index' % spec['entry'])
                 shutil.rmtree(dest.dir, ignore_errors=True)
@@ -385,9 +412,9 @@ def run_internal(ctx, rng, spec, root):
     from pico8.lua import lua
     from pico8 import tool
     always = lambda: True   # these calls cannot succeed: whatever they return, the destination must be as before
-    for exists, readonly in ((True, False), (True, True), (False, False)):
+    for exists, readonly, empty in ((True, False, False), (True, True, False), (False, False, False), (True, False, True)):
         # 1. oversize code for a .p8.png
-        dest = Dest(ctx, rng, 'png', exists, root, readonly=readonly)
+        dest = Dest(ctx, rng, 'png', exists, root, readonly=readonly, empty=empty)
         regions, _ = carts.random_regions(rng, 'uniform')
         big = carts.make_game(regions, code=carts.incompressible(rng, 17000), version=8)
         attempt(ctx, dest, lambda: p8file.to_file(big, dest.path),
@@ -395,7 +422,7 @@ def run_internal(ctx, rng, spec, root):
         shutil.rmtree(dest.dir, ignore_errors=True)
         for fmt in ('p8', 'png'):
             # 2. the minifier is told to read a names file that does not exist
-            dest = Dest(ctx, rng, fmt, exists, root, readonly=readonly)
+            dest = Dest(ctx, rng, fmt, exists, root, readonly=readonly, empty=empty)
             g = new_game(rng)
             attempt(ctx, dest, lambda: p8file.to_file(g, dest.path, lua_writer_cls=lua.LuaMinifyTokenWriter,
                                                       lua_writer_args={'keep_names_from_file': os.path.join(root, 'no_such_names.txt')}),
@@ -404,13 +431,13 @@ def run_internal(ctx, rng, spec, root):
             bad = os.path.join(root, 'bad_main.lua')
             with open(bad, 'wb') as fh:
                 fh.write(b'x=1\nfunction f(\n')
-            attempt(ctx, dest, lambda: tool.main(['-q', 'build', dest.path, '--lua', bad]),
+            attempt(ctx, dest, lambda: tool.main(QUIET + ['build', dest.path, '--lua', bad]),
                     {'injector': 'build_unparseable_source', 'fmt': fmt, 'exists': exists, 'readonly': readonly},
                     'build_unparseable_source', fired=always)
             req = os.path.join(root, 'req_main.lua')
             with open(req, 'wb') as fh:
                 fh.write(b'x=1\nrequire("module_that_is_not_there")\n')
-            attempt(ctx, dest, lambda: tool.main(['-q', 'build', dest.path, '--lua', req]),
+            attempt(ctx, dest, lambda: tool.main(QUIET + ['build', dest.path, '--lua', req]),
                     {'injector': 'build_missing_require', 'fmt': fmt, 'exists': exists, 'readonly': readonly},
                     'build_missing_require', fired=always)
             # and an injected stream failure during build to an absent / existing destination
@@ -419,22 +446,34 @@ def run_internal(ctx, rng, spec, root):
                 fh.write(b'x=1\nprint(x)\n')
             for k in (1, 2, 5):
                 with faults.StreamFaultPatch(fmt_class(fmt), k) as pt:
-                    attempt(ctx, dest, lambda: tool.main(['-q', 'build', dest.path, '--lua', ok_src]),
+                    attempt(ctx, dest, lambda: tool.main(QUIET + ['build', dest.path, '--lua', ok_src]),
                             {'injector': 'stream', 'entry': 'build', 'k': k, 'fmt': fmt, 'exists': exists, 'readonly': readonly},
                             'stream', fired=lambda: pt.stream is not None and pt.stream.failed)
-            ctx.feature('internal_failures_%s' % ('absent' if not exists else 'readonly' if readonly else 'exists'))
+            ctx.feature('internal_failures_%s' % ('absent' if not exists else 'readonly' if readonly else 'zero_length' if empty else 'exists'))
             shutil.rmtree(dest.dir, ignore_errors=True)
     ctx.sample({'internal_failure_sources': ['oversize_code', 'missing_names_file', 'build_unparseable_source', 'build_missing_require']})
 
 
+QUIET = ['-q']          # the verbosity option the command-line entries are given (run_shard switches it per shard)
+VERBOSITY = ['quiet']
+
+
 def run_shard(spec, ctx):
+    from .c03 import Verbosity
     rng = ctx.rng
     root = tempfile.mkdtemp(prefix='vf-c11-')
     fsmon.install()
+    level = spec.get('verbosity', 'normal')
+    QUIET[:] = ['--debug'] if level == 'debug' else ['-q']
+    VERBOSITY[0] = level
+    ctx.feature('verbosity_' + level)
     try:
-        {'stream': run_stream, 'writer_section': run_writer_section, 'png_rows': run_png_rows, 'cli': run_cli,
-         'failpoints': run_failpoints, 'internal': run_internal}[spec['kind']](ctx, rng, spec, root)
+        with Verbosity(level):
+            {'stream': run_stream, 'writer_section': run_writer_section, 'png_rows': run_png_rows, 'cli': run_cli,
+             'failpoints': run_failpoints, 'internal': run_internal}[spec['kind']](ctx, rng, spec, root)
     finally:
+        QUIET[:] = ['-q']
+        VERBOSITY[0] = 'quiet'
         shutil.rmtree(root, ignore_errors=True)
 
 
@@ -450,7 +489,7 @@ def replay(case, ctx):
     try:
         fmt, exists, inj = case.get('fmt', 'p8'), case.get('exists', True), case['injector']
         entry = case.get('entry', 'file')
-        dest = Dest(ctx, rng, fmt, exists, root)
+        dest = Dest(ctx, rng, fmt, exists, root, empty=case.get('empty', False))
         g = new_game(rng)
         call = (lambda: p8file.to_file(g, dest.path)) if entry == 'file' else cli_call(entry, dest, root)
         if inj == 'stream':
@@ -477,7 +516,8 @@ def replay(case, ctx):
 def gates(m, tier):
     f, mon = m['features'], m['monitors']
     missed = []
-    for k in ('internal_failures_absent', 'internal_failures_exists', 'internal_failures_readonly', 'readonly_destination'):
+    for k in ('internal_failures_absent', 'internal_failures_exists', 'internal_failures_readonly', 'readonly_destination',
+              'internal_failures_zero_length', 'zero_length_destination', 'verbosity_debug'):
         if f.get(k, 0) < 1:
             missed.append('%s never driven' % k)
     for inj in ('stream', 'lua_writer', 'section', 'png_encoder', 'failpoint', 'unparseable_output', 'oversize_code', 'missing_names_file',
@@ -490,9 +530,9 @@ def gates(m, tier):
                 if f.get('delivered:%s:%s:%s' % (inj, fmt, ex), 0) < 1:
                     missed.append('no %s fault delivered for %s/%s' % (inj, fmt, ex))
     for fmt in ('p8', 'png'):
-        # three stream shards per format (destination exists / absent / read-only); each enumerates every write index
-        if f.get('stream_enumeration_complete:' + fmt, 0) < 3:
-            missed.append('stream write index enumeration for %s completed in %d of 3 shards' % (fmt, f.get('stream_enumeration_complete:' + fmt, 0)))
+        # six stream shards per format (destination exists / absent / read-only / zero-length; exists and absent again at debug verbosity); each enumerates every write index
+        if f.get('stream_enumeration_complete:' + fmt, 0) < 6:
+            missed.append('stream write index enumeration for %s completed in %d of 6 shards' % (fmt, f.get('stream_enumeration_complete:' + fmt, 0)))
     hit, total = mon.get('failpoint_sites_hit', 0), mon.get('failpoint_sites_in_fault_free_run', 0)
     if total == 0 or hit < 0.85 * total:
         missed.append('failpoint sites hit %d of %d (<85%%)' % (hit, total))
